@@ -67,7 +67,7 @@ pub(super) fn creation_timestamp_of_currentfile(
             config.use_utc,
             &date_for_rotated_file,
             fmt,
-        );
+        )?;
 
         #[cfg(flexi_logger_verif)]
         crate::verif_hooks::fs_point(crate::verif_hooks::FsOp::Rename, &current_path)?;
@@ -88,19 +88,19 @@ pub(super) fn latest_timestamp_file(
     config: &FileLogWriterConfig,
     rotate: bool,
     fmt: &InfixFormat,
-) -> DateTime<Local> {
+) -> std::io::Result<DateTime<Local>> {
     #[cfg(flexi_logger_verif)]
     use crate::verif_hooks::Local;
-    if rotate {
+    Ok(if rotate {
         Local::now()
     } else {
         // find all file paths that fit the pattern
         config
             .file_spec
-            .list_of_files(
+            .try_list_of_files(
                 &InfixFilter::Numbrs,
                 config.file_spec.get_suffix().as_deref(),
-            )
+            )?
             .into_iter()
             // retrieve the infix
             .map(|path| ts_infix_from_path(&path, &config.file_spec))
@@ -110,7 +110,7 @@ pub(super) fn latest_timestamp_file(
             .reduce(|acc, e| if acc > e { acc } else { e })
             // if nothing is found, take Local::now()
             .unwrap_or_else(Local::now)
-    }
+    })
 }
 
 fn path_for_rotated_file_from_timestamp(
@@ -118,13 +118,13 @@ fn path_for_rotated_file_from_timestamp(
     use_utc: bool,
     timestamp_for_rotated_file: &DateTime<Local>,
     fmt: &InfixFormat,
-) -> PathBuf {
+) -> std::io::Result<PathBuf> {
     let infix = file_spec.collision_free_infix_for_rotated_file(&infix_from_timestamp(
         timestamp_for_rotated_file,
         use_utc,
         fmt,
-    ));
-    file_spec.as_pathbuf(Some(&infix))
+    ))?;
+    Ok(file_spec.as_pathbuf(Some(&infix)))
 }
 
 #[cfg(test)]
